@@ -1,4 +1,4 @@
-(* Proofs/DequeAbaStab.v — (aba-guarded version of Proofs/DequeConcStab.v) stability of a thread's register invariant [J] under the steps of
+(* Proofs/DequeAbaStab.v — (node-reuse version of Proofs/DequeConcStab.v, unguarded since the repair) stability of a thread's register invariant [J] under the steps of
    OTHER threads: [J_frame] (steps that leave the anchor alone: private stores, allocation,
    deallocation, the link CAS of stabilize) and [J_acas] (a successful anchor CAS). *)
 From Coq Require Import List NArith Bool Lia Arith Permutation.
